@@ -227,6 +227,11 @@ def _drive(mod, tier, seed, max_examples, t_end, on_case, fail_pred=None, shrink
         body()
     except AssertionError:
         pass
+    except BaseException as exc:  # noqa: BLE001
+        # with a failing body Hypothesis may report Flaky / exception groups (e.g. when the time budget makes the
+        # body return early on a re-run); the last failing spec recorded so far is still a valid reproduction
+        if fail_pred is None or isinstance(exc, (KeyboardInterrupt, SystemExit, HarnessError)):
+            raise
     return state
 
 
@@ -465,7 +470,7 @@ def run_property(pid: str, tier: str) -> int:
         if tier == "thorough" and not best["grid"] and hasattr(mod, "strategy"):
             try:
                 spec = _shrink(mod, tier, best, clause, known, max_examples) or spec
-            except HarnessError:
+            except Exception:  # noqa: BLE001  (shrinking is best effort: Flaky / time budget / harness trouble -> keep the unshrunk case)
                 pass
         path = os.path.join(
             "replays", f"{pid}_{clause.replace('.', '_').replace('/', '_')}_{spec_hash(spec)[:8]}.json"
